@@ -77,6 +77,8 @@ def check(ctx):
     ctx.rule("GRD-sentinel", "NA replaced inside a hash key only together with the NA mask as a key component")
     ctx.rule("GRD-empty", "reductions guarded for 0-row frames")
     ctx.rule("LEN", "boolean mask length is checked against nrow")
+    ctx.rule("SIB-seen", "first-seen scan tests and records the key tuples themselves")
+    ctx.rule("GRD-negslice", "no negated slice bound that can be 0")
     n = 0
     for name, ops in list(KEEP.items()) + list(DROP.items()):
         fn = repo.fn(f"{DF}.{name}")
@@ -169,6 +171,20 @@ def check(ctx):
             fn = repo.fn(f"{cq}.{name}")
             k += clamp_check(ctx, fn, size, "head/tail keep min(n, nrow) rows")
     ctx.count("clamp sites (DataFrame + Vector)", k, 6)
+    from ..guards import lower_bound
+    for cq in (DF, VEC):
+        for name in ("head", "tail", "sample"):
+            fn = repo.fn(f"{cq}.{name}")
+            for n in body_nodes(fn.node):
+                if isinstance(n, ast.Slice):
+                    for bound in (n.lower, n.upper):
+                        if isinstance(bound, ast.UnaryOp) and isinstance(bound.op, ast.USub) and not isinstance(bound.operand, ast.Constant):
+                            lb = lower_bound(repo, fn, bound.operand, n)
+                            ok = lb is not None and lb >= 1
+                            ctx.ob("GRD-negslice", fn, f"[{norm(n)}]", n, ok, f"{norm(bound.operand)} >= {lb}" if ok else
+                                   f"slice bound -{norm(bound.operand)} where {norm(bound.operand)} can be 0: x[-0:] is the whole "
+                                   f"sequence, so {name}(0) returns every row instead of none",
+                                   clause="head/tail keep the first/last min(n, nrow) rows")
     for cq in (DF, VEC):
         fn = repo.fn(f"{cq}.sample")
         rnd = [(f, c) for f, c in calls_in(fn) if (repo.dotted(f, c.func) or "").startswith(("numpy.random.", "random."))]
@@ -236,6 +252,32 @@ def check(ctx):
                 "constant is merged with the missing ones"))
         ctx.ob("GRD-sentinel", uq, norm(c), c, ok, why, chain=chain,
                clause="missing values compare equal to each other and to nothing else")
+    # the first-seen scan compares the key tuples themselves
+    LOSSY = {"builtins.hash", "builtins.id", "builtins.str", "builtins.repr", "builtins.len", "builtins.sum", "builtins.bool"}
+    tests = [n for n in body_nodes(uq.node) if isinstance(n, ast.Compare) and len(n.ops) == 1 and isinstance(n.ops[0], (ast.NotIn, ast.In))
+             and isinstance(n.comparators[0], ast.Name)]
+    adds = [c for f, c in calls_in(uq) if isinstance(c.func, ast.Attribute) and c.func.attr == "add"]
+    ctx.count("membership tests of the first-seen scan", len(tests), 1)
+    for t in tests:
+        seen = norm(t.comparators[0])
+        operands = [t.left] + [c.args[0] for c in adds if norm(c.func.value) == seen and c.args]
+        lossy = None
+        for o in operands:
+            exprs = [o]
+            if isinstance(o, ast.Name):
+                exprs = [d.value for d in defs_reaching(uq, o.id, t) if d.value is not None]
+            for e in exprs:
+                for x in ast.walk(e):
+                    if isinstance(x, ast.Call) and repo.dotted(uq, x.func) in LOSSY:
+                        lossy = x
+        same = len({norm(o) for o in operands}) == 1
+        ok = lossy is None and same and bool(adds)
+        ctx.ob("SIB-seen", uq, f"{norm(t)} / add({', '.join(norm(o) for o in operands[1:])})", t, ok,
+               "the set of seen keys holds the key tuples themselves and the test uses the same expression" if ok else
+               (f"keys are reduced with {norm(lossy)} before the membership test: distinct keys can collide (hash(-1) == hash(-2), "
+                f"hash(0) == hash(2**61-1)), so rows with different keys are dropped" if lossy is not None else
+                "the expression tested for membership is not the one recorded as seen"),
+               clause="unique keeps exactly the first row of every distinct key combination")
     n = grd_empty(ctx, [repo.fn(f"{DF}.{m}") for m in ("filter", "filter_out", "slice", "slice_off", "head", "tail",
                                                          "drop_na", "sample", "unique")],
                   "succeeds on 0..N rows", only=lambda f: f.module.name == "dataiter.data_frame")
